@@ -17,6 +17,12 @@ CHECKS.update({
  "C18": ("exploration","runtime oracle: independent RFC 9460 encoder/walker and miekg/dns decoder over all key orderings with seeded values; malformed-input table",
          "Runs the real FromText/ToWire/ToText and the B/H line codec on every ordering of every subset of the seven keys (complete) with seeded value variants, compares the bytes with the harness's own RFC 9460 encoding, walks them for order/length conformance, decodes them with miekg/dns and checks the print->parse round trip; a table of malformed lists must be rejected (or, for empty elements, lose nothing).",
          "Trusts the harness encoder/walker and miekg/dns v1.1.50 (not used for IPv4-mapped ipv6hint, which it refuses by its own policy). Value variants are sampled, key orderings are complete.","4/C18"),
+ "C15": ("exploration","runtime oracle: map-of-lists reference model vs a real RocksDB store, exhaustive short histories + random long ones; porcupine per-key linearizability of concurrent clients; dump comparison for backup/restore",
+         "Drives the real rdb.RDB (Add/Del/ExecuteBatch, Backup/Restore) in scratch directories: all single-op histories up to depth 3 (thorough 4) over a 3-key x 4-value alphabet, every 2-op batch after every 1-op prefix, random long histories with 70 kB values and prefix-related values, reading every key back after every step; concurrent clients are checked per key with porcupine; backup->restore must dump equal.",
+         "Trusts the harness model and porcupine v1.3.0; librocksdb itself is a prebuilt library and is only observed through the repository's cgo glue.","4/C15"),
+ "C03": ("exploration","runtime oracle: brute-force longest-prefix-match model vs the real Rearranger output (predecessor search) and vs Reader.ResolverLocation/EcsLocation on four compiled configurations",
+         "(a) Feeds seeded hostile subnet sets to the real Rearranger and searches its points exactly as the RocksDB driver does; (b) compiles the same kind of sets with M/8/% lines to CDB (combined and per-family prefix sets), RocksDB v1 and v2 and queries the real readers; both are compared, location and matched length, with a brute-force LPM oracle and an independent name->map model (exact before nearest wildcard, root wildcard, wildcard not applying to its apex, default map).",
+         "Trusts the harness LPM/name-map models. Client prefixes have zero host bits. One open finding (IPv6 subnets containing the IPv4-mapped block) is suppressed by predicate.","4/C03"),
 })
 BUILT = set(CHECKS)
 ALL = [json.loads(l)["id"] for l in open("properties.jsonl")]
